@@ -13,3 +13,15 @@ claim("C08", "bounded-exhaustive enumeration of operation histories on the real 
       "All multisets of <=3 (quick) / <=5 (thorough) union/insert operations over the generated alphabets, all orderings and orientations, run in the default build and in the build with the crate's internal assertions; after each history the monitor requires: no panic/abort/hang, EGraph::check() passes, every e-node looks up to the identity invocation of its own class, mentions all class slots, refers only to live classes, find is idempotent, a no-op union changes nothing, extraction of every class and stale handle returns. Worker deaths/hangs are violations.",
       "Histories are over the Sym driver language; rewriting/extraction histories over the arithmetic language are monitored by C03/C13/C15 which report panics as their own failures.",
       "DESIGN.md 5 C08")
+claim("C10", "exhaustive enumeration of generator sets against a brute-force permutation-group closure, on the group structure (hook) and through unions on the real e-graph",
+      "Every generator set of <=3 permutations on 1-4 slots, <=2 on 5 slots, every single permutation (thorough: every pair) on 6 slots is given to the crate's Group under three slot orderings; membership of every permutation, all_perms, count, orbits, generators and add_set (every extra set) are compared with a closure on explicit arrays. Through the e-graph: one union per generator in every order/orientation on the 2/3/4-slot leaves, every eq(leaf, leaf.sigma) and the symmetry count against the oracle, also after a redundancy-creating union.",
+      "Trusts the add-only VerifGroup hook to forward unchanged; 5/6-slot sets are bounded by set size.",
+      "DESIGN.md 5 C10")
+claim("C19", "explicit-state BFS with state merging over the real SlotMap against a BTreeMap reference",
+      "BFS from the empty map over insert/remove on 4 keys x 4 values (depth 5/6), merged on (implementation representation, reference map), all accessors/inverse/identity/rebuild-order/Eq/Hash/Ord compared in every state; all 625x625 pairs for compose/compose_partial/compose_fresh/union/try_union; all 64^3 triples for associativity; BFS depth 3 around the inline-capacity boundary (9/10/11 entries, 12 insertion rotations).",
+      "Operations outside their documented domain (union of incompatible maps, inverse of non-bijections) are not compared.",
+      "DESIGN.md 5 C19")
+claim("C17", "exhaustive enumeration of slot-creation sequences, each in a fresh thread, against a reference name table",
+      "Every sequence of <=4 (quick) / <=5 (thorough) operations over fresh / numeric / 19 textual names (incl. f<n> forms, non-canonical numerals, empty and non-ASCII names) / parse-print / e-graph insertion is executed in a fresh thread; fresh must be new, names injective and stable, print-parse round-trips, class parameter slots new.",
+      "Numeric names >= 2^30 and overflowing f<n> names are outside the quantifier.",
+      "DESIGN.md 5 C17")
